@@ -83,6 +83,47 @@ fn to_coq(t: &BT) -> String {
         BT::Bin(k, a, c) => format!("(EBin {} {} {})", ["Add", "Sub", "Mul", "Div"][*k as usize], to_coq(a), to_coq(c)), BT::Neg(x) => format!("(EUn Neg {})", to_coq(x)),
     }
 }
+
+/// C16 call sequences: the case's variables (sometimes with a duplicate declaration), its constraints split at random into
+/// with / with_all groups, and one to three objective calls anywhere in between; the real ModelBuilder runs the calls.
+fn ops_case(c: &Case, r: &mut Rng) -> (String, String) {
+    #[derive(Clone)] enum Op { Var(usize, bool), With(usize), WithAll(usize, usize), Min, Max, Sat }
+    let mut ops: Vec<Op> = (0..c.decls.len()).map(|j| Op::Var(j, false)).collect();
+    // constraints in order, grouped at random
+    let mut k = 0; let mut cons_ops = Vec::new();
+    while k < c.cons.len() { let g = 1 + r.below(3).min(c.cons.len() - k - 0).min(c.cons.len() - k); let g = g.max(1).min(c.cons.len() - k);
+        if g == 1 && r.chance(1, 2) { cons_ops.push(Op::With(k)); } else { cons_ops.push(Op::WithAll(k, k + g)); } k += g; }
+    if r.chance(1, 6) { cons_ops.push(Op::WithAll(0, 0)); }
+    ops.extend(cons_ops);
+    // objective calls anywhere after the variables (the expressions need the handles)
+    let nv = c.decls.len();
+    for _ in 0..1 + r.below(3) { let pos = nv + r.below(ops.len() - nv + 1); ops.insert(pos, match r.below(3) { 0 => Op::Min, 1 => Op::Max, _ => Op::Sat }); }
+    if r.chance(1, 5) { ops.retain(|o| !matches!(o, Op::Min | Op::Max | Op::Sat)); }   // no objective call at all: defaults to satisfy
+    // now and then a name is declared twice (add_var panics)
+    if r.chance(1, 8) && nv > 0 { let j = r.below(nv); let pos = nv + r.below(ops.len() - nv + 1); ops.insert(pos, Op::Var(j, true)); }
+    let bcon = |k: &Con| format!("(mkBC {} {} {} {} {})", cq::string(&k.name), to_coq(&k.lhs), ["Le", "Ge", "Eq"][k.cmp as usize], to_coq(&k.rhs), cq::boolean(k.assertion));
+    let coq_ops: Vec<String> = ops.iter().map(|o| match o {
+        Op::Var(j, _) => format!("(OVar {} {})", cq::string(&c.decls[*j].name), vtype(&vt(&c.decls[*j]))),
+        Op::With(k) => format!("(OWith {})", bcon(&c.cons[*k])),
+        Op::WithAll(a, z) => format!("(OWithAll [{}])", c.cons[*a..*z].iter().map(&bcon).collect::<Vec<_>>().join("; ")),
+        Op::Min => format!("(OMin {})", to_coq(&c.obj)), Op::Max => format!("(OMax {})", to_coq(&c.obj)), Op::Sat => "OSat".to_string() }).collect();
+    let ops2 = ops.clone(); let c2 = c.clone();
+    let built = std::panic::catch_unwind(move || {
+        let mut mb = ModelBuilder::new(); let mut vars: Vec<Var> = Vec::new();
+        let mk = |k: &Con, vars: &[Var]| if k.assertion { BuilderConstraint::new_logic_assertion(to_builder(&k.lhs, vars), k.name.clone()) } else { BuilderConstraint::new(to_builder(&k.lhs, vars), cmp(k.cmp), to_builder(&k.rhs, vars), k.name.clone()) };
+        for o in &ops2 { match o {
+            Op::Var(j, dup) => { let h = mb.add_var(c2.decls[*j].name.clone(), vt(&c2.decls[*j])); if !*dup { vars.push(h); } }
+            Op::With(k) => { mb = mb.with(mk(&c2.cons[*k], &vars)); }
+            Op::WithAll(a, z) => { mb = mb.with_all(c2.cons[*a..*z].iter().map(|k| mk(k, &vars)).collect::<Vec<_>>()); }
+            Op::Min => { mb = mb.minimize(to_builder(&c2.obj, &vars)); } Op::Max => { mb = mb.maximize(to_builder(&c2.obj, &vars)); } Op::Sat => { mb = mb.satisfy(); } } }
+        mb.into_model() });
+    let observed = match built {
+        Err(_) => "None".to_string(),
+        Ok(m) => format!("(Some ({}, {}, [{}], [{}]))", match m.objective().objective_type { OptimizationType::Min => "DMin", OptimizationType::Max => "DMax", OptimizationType::Satisfy => "DSatisfy" }, cq::exp(&m.objective().rhs),
+            m.constraints().iter().map(constraint).collect::<Vec<_>>().join("; "),
+            m.domain().iter().map(|(k, d)| format!("({}, {}, {})", cq::string(k), vtype(d.get_type()), cq::boolean(d.is_used()))).collect::<Vec<_>>().join("; ")) };
+    (format!("(mkOps [{}] {})", coq_ops.join("; "), observed), format!("{} calls: {}", ops.len(), ops.iter().map(|o| match o { Op::Var(j, d) => format!("add_var({}{})", c.decls[*j].name, if *d { " again" } else { "" }), Op::With(k) => format!("with(c{k})"), Op::WithAll(a, z) => format!("with_all(c{a}..c{z})"), Op::Min => "minimize".into(), Op::Max => "maximize".into(), Op::Sat => "satisfy".into() }).collect::<Vec<_>>().join(" ")))
+}
 fn build(c: &Case) -> (ModelBuilder, Vec<Var>) { build_with(c, false) }
 /// `pin_unused`: declared-but-unused Real / NonNegativeReal variables with an infinite bound are declared `Real(0, 0)` instead
 /// (nothing else changes) - used only to attribute a disagreement to finding F19b
@@ -162,8 +203,11 @@ fn main() {
             let mut jf = std::io::BufWriter::new(std::fs::File::create(format!("{outdir}/cases.jsonl")).unwrap());
             let mut cases = std::io::BufWriter::new(std::fs::File::create(format!("{outdir}/cases.txt")).unwrap());
             let mut inputs = std::io::BufWriter::new(std::fs::File::create(format!("{outdir}/inputs.txt")).unwrap());
+            let mut opsf = std::io::BufWriter::new(std::fs::File::create(format!("{outdir}/ops.txt")).unwrap());
+            let mut opsin = std::io::BufWriter::new(std::fs::File::create(format!("{outdir}/ops_inputs.txt")).unwrap());
             for i in 0..n {
                 let c = gen_case(&mut r, i);
+                { let (line, what) = ops_case(&c, &mut r); writeln!(opsf, "{line}").unwrap(); writeln!(opsin, "{what}").unwrap(); rep.count("tie.call_sequences"); if line.ends_with("None)") { rep.count("tie.call_sequences.duplicate_name_panics"); } }
                 let names: Vec<String> = c.decls.iter().map(|d| d.name.clone()).collect();
                 let text = text_of(&c);
                 writeln!(jf, "{}", json!({"case": c, "text": text})).unwrap();
